@@ -66,6 +66,12 @@ def gen_history(rng, n):
                 # must be the same when the record is read back (0.1 and 48.8566 are not exact in 32-bit floats)
                 e["tags"] = e["tags"] + [[rng.choice(["v", "g", "x", "expiration"]),
                                           rng.choice([0.1, 48.8566, 1.5, 0.25, 7, 2 ** 40, True, None, 1e21, 1e-7, -0.0, 3.0])]]
+            if rng.random() < 0.12:
+                # scalars that compare equal in Python but are different JSON values with different text forms (1 / 1.0 / true,
+                # 0 / 0.0 / -0.0 / false): under one tag name, in one event or in different events of the same process
+                fam = rng.choice([[1, 1.0, True], [0, 0.0, -0.0, False], [7, 7.0]])
+                name = rng.choice(["x", "x", "v"])
+                e["tags"] = e["tags"] + [[name, v] for v in rng.sample(fam, rng.choice([1, 1, 2]))]
             events.append(e)
             ops.append(("add", e))
         elif r < 0.58:
